@@ -1,6 +1,7 @@
 //! C12 — parsing with the pattern that produced a string recovers the value.
 
-use super::c11::{gen_fmt_value, lib_format, val_of};
+use super::c11::{gen_fmt_value, lib_format, val_of, LibVal};
+use super::diff::*;
 use super::PropResult;
 use crate::core::*;
 use crate::model::calendar as cal;
@@ -19,11 +20,10 @@ fn kind_name(k: Kind) -> &'static str {
 }
 
 /// What the parsed value looks like, uniformly for the three types.
-#[derive(Debug, Clone, PartialEq)]
 struct Parsed {
+    /// the parsed library value itself
+    lv: LibVal,
     reformatted: String,
-    /// UTC instant (DateTime), day*D (Date) or stored nanoseconds (Time)
-    instant: i128,
     offset: Option<i32>,
     /// local fields: year, month, day, hour, minute, second, nano
     fields: (i64, u32, u32, u32, u32, u32, u32),
@@ -32,20 +32,20 @@ struct Parsed {
 fn lib_parse(kind: Kind, s: &str, p: &str) -> Result<Parsed, String> {
     match kind {
         Kind::DateTime => DateTime::parse(s, p).map_err(|e| e.to_string()).map(|r| Parsed {
+            lv: LibVal::Dt(r),
             reformatted: r.format(p),
-            instant: read(&r),
             offset: offset_secs(&r),
             fields: (r.year() as i64, r.month(), r.day(), r.hour(), r.minute(), r.second(), r.nano()),
         }),
         Kind::Date => Date::parse(s, p).map_err(|e| e.to_string()).map(|r| Parsed {
+            lv: LibVal::D(r),
             reformatted: r.format(p),
-            instant: (r.timestamp() / 86_400 + cal::DAYS_TO_1970) as i128 * D,
             offset: Some(0),
             fields: (r.year() as i64, r.month(), r.day(), 0, 0, 0, 0),
         }),
         Kind::Time => Time::parse(s, p).map_err(|e| e.to_string()).map(|r| Parsed {
+            lv: LibVal::T(r),
             reformatted: r.format(p),
-            instant: r.as_nanos() as i128,
             offset: time_offset_secs(&r),
             fields: (1, 1, 1, r.hour(), r.minute(), r.second(), r.nano()),
         }),
@@ -114,8 +114,32 @@ fn judge(rec: &mut Rec, kind: Kind, i: i128, off: i32, info: &PatInfo) {
         let keep = 10u32.pow(9 - info.subsec_digits.min(9));
         sub % keep == 0
     };
+    // the value to round-trip: only where its construction and read-outs are trustworthy
+    let orig: LibVal = match kind {
+        Kind::DateTime => match sane_value(i, off) {
+            Some((x, _)) => LibVal::Dt(x),
+            None => {
+                rec.bin(SKIP_START);
+                return;
+            }
+        },
+        Kind::Date => match sane_date(v.day) {
+            Some(x) => LibVal::D(x),
+            None => {
+                rec.bin(SKIP_START);
+                return;
+            }
+        },
+        Kind::Time => match sane_time(i.rem_euclid(D) as u64, off) {
+            Some((x, _)) => LibVal::T(x),
+            None => {
+                rec.bin(SKIP_START);
+                return;
+            }
+        },
+    };
     let r = trap(|| {
-        let s = lib_format(kind, i, off, p);
+        let s = orig.format(p);
         let parsed = lib_parse(kind, &s, p);
         (s, parsed)
     });
@@ -147,29 +171,49 @@ fn judge(rec: &mut Rec, kind: Kind, i: i128, off: i32, info: &PatInfo) {
                     Kind::DateTime => {
                         if date_full && time_full && info.has_zone {
                             rec.bin("claim/instant+offset");
-                            if pr.instant != i || pr.offset != Some(off) {
-                                rec.violation("C12|DateTime|parse∘format|instant-or-offset-differs".to_string(), || wit(json!({"formatted": s, "parsed_instant": show(pr.instant), "parsed_offset": pr.offset})));
+                            if let LibVal::Dt(pv) = &pr.lv {
+                                match diff_with_expected(pv, i, off) {
+                                    Ok(Diff::Skip) => rec.bin(SKIP_EXPECTED),
+                                    Ok(Diff::Same) => {}
+                                    Ok(Diff::Differs(g, e)) => rec.violation("C12|DateTime|parse∘format|instant-or-offset-differs".to_string(), || wit(json!({"formatted": s, "parsed_value_reads": g.to_json(), "original_value_reads": e.to_json()}))),
+                                    Err(pn) => rec.violation(format!("C12|DateTime|parse∘format|parsed-value-unreadable|{},{}", pn.class, pn.site()), || wit(pn.to_json())),
+                                }
                             }
                         } else if date_full && time_full && !info.has_zone {
                             rec.bin("claim/local-fields-as-UTC");
-                            if pr.instant != i + off as i128 * NS || pr.offset != Some(0) {
-                                rec.violation("C12|DateTime|parse∘format|no-zone-field-but-not-UTC-of-the-shown-fields".to_string(), || wit(json!({"formatted": s, "parsed_instant": show(pr.instant), "parsed_offset": pr.offset})));
+                            if let LibVal::Dt(pv) = &pr.lv {
+                                match diff_with_expected(pv, i + off as i128 * NS, 0) {
+                                    Ok(Diff::Skip) => rec.bin(SKIP_EXPECTED),
+                                    Ok(Diff::Same) => {}
+                                    Ok(Diff::Differs(g, e)) => rec.violation("C12|DateTime|parse∘format|no-zone-field-but-not-UTC-of-the-shown-fields".to_string(), || wit(json!({"formatted": s, "parsed_value_reads": g.to_json(), "value_of_the_shown_fields_as_UTC_reads": e.to_json()}))),
+                                    Err(pn) => rec.violation(format!("C12|DateTime|parse∘format|parsed-value-unreadable|{},{}", pn.class, pn.site()), || wit(pn.to_json())),
+                                }
                             }
                         }
                     }
                     Kind::Date => {
                         if date_full {
                             rec.bin("claim/same-date");
-                            if pr.instant != v.day as i128 * D {
-                                rec.violation("C12|Date|parse∘format|date-differs".to_string(), || wit(json!({"formatted": s, "parsed_day": (pr.instant / D).to_string()})));
+                            if let LibVal::D(pv) = &pr.lv {
+                                match diff_date(pv, v.day) {
+                                    Ok(DateDiff::Skip) => rec.bin(SKIP_EXPECTED),
+                                    Ok(DateDiff::Same) => {}
+                                    Ok(DateDiff::Differs(g, e)) => rec.violation("C12|Date|parse∘format|date-differs".to_string(), || wit(json!({"formatted": s, "parsed_value_reads": g, "original_value_reads": e}))),
+                                    Err(pn) => rec.violation(format!("C12|Date|parse∘format|parsed-value-unreadable|{},{}", pn.class, pn.site()), || wit(pn.to_json())),
+                                }
                             }
                         }
                     }
                     Kind::Time => {
                         if time_full && info.has_zone {
                             rec.bin("claim/time+offset");
-                            if pr.instant != i.rem_euclid(D) || pr.offset != Some(off) {
-                                rec.violation("C12|Time|parse∘format|time-or-offset-differs".to_string(), || wit(json!({"formatted": s, "parsed_as_nanos": pr.instant.to_string(), "parsed_offset": pr.offset})));
+                            if let LibVal::T(pv) = &pr.lv {
+                                match diff_time(pv, i.rem_euclid(D) as u64, off) {
+                                    Ok(TDiff::Skip) => rec.bin(SKIP_EXPECTED),
+                                    Ok(TDiff::Same) => {}
+                                    Ok(TDiff::Differs(g, e)) => rec.violation("C12|Time|parse∘format|time-or-offset-differs".to_string(), || wit(json!({"formatted": s, "parsed_value_reads": format!("{:?}", g), "original_value_reads": format!("{:?}", e)}))),
+                                    Err(pn) => rec.violation(format!("C12|Time|parse∘format|parsed-value-unreadable|{},{}", pn.class, pn.site()), || wit(pn.to_json())),
+                                }
                             }
                         }
                     }
